@@ -82,9 +82,12 @@ func (x *wireExtractor) undecodedReads(body *ast.BlockStmt) map[*ast.CallExpr]bo
 		return out
 	}
 	readVar := map[*ast.CallExpr]types.Object{}
+	var allReads []*ast.CallExpr
 	decoded := map[types.Object]bool{}
 	ast.Inspect(body, func(n ast.Node) bool {
 		switch n := n.(type) {
+		case *ast.FuncLit:
+			return false
 		case *ast.AssignStmt:
 			if len(n.Rhs) == 1 {
 				if call, ok := ast.Unparen(n.Rhs[0]).(*ast.CallExpr); ok {
@@ -96,7 +99,11 @@ func (x *wireExtractor) undecodedReads(body *ast.BlockStmt) map[*ast.CallExpr]bo
 				}
 			}
 		case *ast.CallExpr:
-			if fn, full := x.calleeOf(n); fn != nil && strings.HasPrefix(full, "encoding/binary.") {
+			fn, full := x.calleeOf(n)
+			if fn != nil && strings.HasSuffix(full, "bluge_segment_api.*Data.Read") {
+				allReads = append(allReads, n)
+			}
+			if fn != nil && strings.HasPrefix(full, "encoding/binary.") {
 				for _, a := range n.Args {
 					if id, ok := ast.Unparen(a).(*ast.Ident); ok {
 						decoded[x.info.ObjectOf(id)] = true
@@ -106,6 +113,17 @@ func (x *wireExtractor) undecodedReads(body *ast.BlockStmt) map[*ast.CallExpr]bo
 		}
 		return true
 	})
+	// every read is a raw payload read unless its result variable is handed to a decode primitive
+	for _, call := range allReads {
+		if obj, ok := readVar[call]; !ok || obj == nil || !decoded[obj] {
+			out[call] = true
+		}
+	}
+	return out
+}
+
+func unusedReadVars(readVar map[*ast.CallExpr]types.Object, decoded map[types.Object]bool) map[*ast.CallExpr]bool {
+	out := map[*ast.CallExpr]bool{}
 	for call, obj := range readVar {
 		if obj != nil && !decoded[obj] {
 			out[call] = true
